@@ -65,6 +65,17 @@ def islice {α : Type} (start : Nat) (stop : Option Nat) (step : Nat) (l : List 
 
 def tailRows {α : Type} (n : Nat) (l : List α) : List α := l.drop (l.length - n)
 
+/-- `search` / `searchcomplement` (petl b1fac41): a row matches when one of the cells under consideration matches the
+    pattern — every cell when no field is given, otherwise the cells present at the given positions (a row too short to
+    have the field does not match).  `m` is the verdict of `re.search` on the text of each cell of the row. -/
+def searchMatch (idx : Option (List Nat)) (r : Row) (m : List Bool) : Bool :=
+  match idx with
+  | none => (m.take r.length).any id
+  | some is => is.any (fun i => decide (i < r.length) && m.getD i false)
+
+def searchRows (idx : Option (List Nat)) (complement : Bool) (rows : List (Row × List Bool)) : List Row :=
+  (rows.filter (fun rm => searchMatch idx rm.1 rm.2 != complement)).map (·.1)
+
 def selectView (idx : List Nat) (missing : Val) (p : Pred) (complement : Bool) (t : Table) : Out :=
   match t with
   | [] => .fail [] .fieldSelection
